@@ -12,7 +12,7 @@ import (
 
 // C10.colwriter: row alignment of columnwriter on Flush.
 func c10ColWriterRules(r *fw.Run, p *fw.Program) {
-	ru := r.Rule("C10.colwriter", "columnwriter: FlushLine writes line lineNr (or nothing), cuts only when longer than Width with slice(s,0,Width), and pads non-last columns by exactly Width-len(s) blanks; Flush takes the maximum of Lines(), runs PreFlush on all columns first, calls FlushLine(w, row, isLast) for every row < max and every column in order, and ends each row with one newline", 9)
+	ru := r.Rule("C10.colwriter", "columnwriter: FlushLine writes line lineNr (or nothing), cuts only when longer than Width with slice(s,0,Width), and pads non-last columns by exactly Width-len(s) blanks; Flush takes the maximum of Lines(), runs PreFlush on all columns first, calls FlushLine(w, row, isLast) for every row < max and every column in order, ends each row with one newline and Resets every column (lines and rest) before returning; Write splits the buffered bytes into lines b[pos:pos+i] at the newline found in b[pos:], advancing by i+1 and keeping b[pos:]; the LenFn/SliceFn hooks are called only when set; ansi.Len/ansi.Slice count exactly the characters outside ESC..m sequences and Slice cuts at visible characters #start/#stop; PreFlush terminates a non-empty rest, Lines() is len(lines)", 23)
 	fl := p.Fn("(*internal/columnwriter.MultiLineColumn).FlushLine")
 	flush := p.Fn("(*internal/columnwriter.Writer).Flush")
 	if fl == nil || flush == nil || fl.Blocks == nil || flush.Blocks == nil || len(fl.Params) != 4 {
@@ -110,6 +110,31 @@ func c10ColWriterRules(r *fw.Run, p *fw.Program) {
 	if nCut == 0 {
 		ru.Undecided("flushline:cut", p.Rel(fl.Pos()), "no cut of over-long cells found (sliceFn call)")
 	}
+	// the line is taken exactly when it exists: lineNr < len(lines)
+	guardOK, nLoads := true, 0
+	fw.EachInstr(fl, func(ins ssa.Instruction) {
+		ld, ok := ins.(*ssa.UnOp)
+		if !ok || !isLineLoad(ld) {
+			return
+		}
+		nLoads++
+		exact := false
+		fw.EachInstr(fl, func(x ssa.Instruction) {
+			lc, ok := x.(*ssa.Call)
+			if !ok || !fw.IsBuiltinCall(lc, "len") {
+				return
+			}
+			if _, f, base, ok := c10FieldLoad(lc.Call.Args[0]); ok && f == "lines" && base == ssa.Value(rcv) {
+				if c10Exact(env, ld.Block(), fw.Cmp{P: env.Of(lineNr).Sub(env.Of(lc)), Rel: fw.LT}) {
+					exact = true
+				}
+			}
+		})
+		if !exact {
+			guardOK = false
+		}
+	})
+	ru.Check(guardOK && nLoads >= 1, "flushline:exists", pos(content), "lines[lineNr] is written exactly when lineNr < len(lines)", "FlushLine does not take lines[lineNr] exactly under lineNr < len(lines); known there: "+c10FactsString(env, content.Block())+": the last row(s) of a column are left blank although collected (bytes not shown)")
 
 	// padding: total blanks == Width - len(s), only for non-last columns
 	if len(pads) != 1 || lenFn == nil {
@@ -165,10 +190,19 @@ func c10ColWriterRules(r *fw.Run, p *fw.Program) {
 	}
 	// max of Lines()
 	var maxPhi *ssa.Phi
+	var maxCall *ssa.Call // builtin max(running, Lines()) form
 	if linesCall.Referrers() != nil {
 		for _, rf := range *linesCall.Referrers() {
 			if ph, ok := rf.(*ssa.Phi); ok {
 				maxPhi = ph
+			}
+			if mc, ok := rf.(*ssa.Call); ok && fw.IsBuiltinCall(mc, "max") && len(mc.Call.Args) == 2 && mc.Referrers() != nil {
+				for _, rr := range *mc.Referrers() {
+					ph, ok := rr.(*ssa.Phi)
+					if ok && (mc.Call.Args[0] == ssa.Value(ph) || mc.Call.Args[1] == ssa.Value(ph)) {
+						maxPhi, maxCall = ph, mc
+					}
+				}
 			}
 		}
 	}
@@ -179,6 +213,8 @@ func c10ColWriterRules(r *fw.Run, p *fw.Program) {
 		for i, e := range maxPhi.Edges {
 			switch {
 			case e == ssa.Value(maxPhi):
+			case maxCall != nil && e == ssa.Value(maxCall):
+				// max(running, Lines()): by construction the larger one
 			case e == ssa.Value(linesCall):
 				if !c10Exact(fenv, maxPhi.Block().Preds[i], fw.Cmp{P: fenv.Of(linesCall).Sub(fenv.Of(maxPhi)), Rel: fw.GT}) {
 					good = false
@@ -282,6 +318,11 @@ func c10ColWriterRules(r *fw.Run, p *fw.Program) {
 		}
 	})
 	ru.Check(nlOK, "flush:newline", p.Rel(flush.Pos()), "each row is terminated by one newline after its last column", "Flush does not write a newline after the columns of each row")
+	c10ColReset(ru, p, flush, flCall)
+	c10ColWriteSplit(ru, p)
+	c10ColPreFlush(ru, p)
+	c10ColFnGuards(ru, p)
+	c10AnsiRules(ru, p)
 }
 
 // c10LenName rewrites len(<path>) atoms of loads of the receiver's Columns to len(recv.Columns).
